@@ -39,6 +39,38 @@ def fresh_parser(kind):
     }[kind]()
 
 
+def nest(items, shape, combine):
+    """Combine a list with a binary constructor in the nesting given by `shape`: 0 is the right-leaning chain the
+    parser builds, (a, (b, (c, d))); other values split at other positions (left-leaning, balanced, mixed)."""
+    n = len(items)
+    if n == 1:
+        return items[0]
+    if not shape:
+        return combine(items[0], nest(items[1:], 0, combine))
+    k = 1 + shape % (n - 1)
+    rest = shape // (n - 1)
+    return combine(nest(items[:k], rest, combine), nest(items[k:], rest // 3, combine))
+
+
+def renest_event(ev, shape):
+    """The same alternatives in the same source order, nested differently (API-built)."""
+    from hpl.ast import HplEventDisjunction
+
+    flat = []
+
+    def walk(e):
+        if type(e).__name__ == 'HplEventDisjunction':
+            walk(e.event1)
+            walk(e.event2)
+        else:
+            flat.append(e)
+
+    if ev is None:
+        return None
+    walk(ev)
+    return nest(flat, shape, HplEventDisjunction)
+
+
 def parse(kind, text):
     return parser(kind).parse(text)
 
